@@ -657,10 +657,17 @@ class BuiltinMixin:
         the extra cases are infeasible paths."""
         from .solve import SeqAbstraction
         orc = self.st.oracle
+        ck = ('conc', z3.simplify(t).sexpr())
+        if ck in self.st.ghost:
+            return self.st.ghost[ck]          # same term already fixed on this path
+        tc = z3.simplify(t)
+        if z3.is_int_value(tc):
+            return tc.as_long()
         if orc.replaying():
             e = orc.next_entry()
             v = e[1]
             self.assume(t == v)
+            self.st.ghost[ck] = v
             return v
         a = SeqAbstraction()
         fs = a.formulas(list(self.st.pc))
@@ -689,6 +696,7 @@ class BuiltinMixin:
         orc.prefix.append(('v', vals[0]))
         orc.pos += 1
         self.assume(t == vals[0])
+        self.st.ghost[ck] = vals[0]
         return vals[0]
 
     # ------------------------------------------------------------ X-STRUCT / X-FLOAT: struct.Struct(fmt).pack
